@@ -285,8 +285,7 @@ def is_single_peaked(instance):
                         x_j = x
     if is_SP:
         if axis is None:
-            axis = left_axis + right_axis
-        axis = to_append_left + axis
+            axis = to_append_left + left_axis + right_axis
         return True, axis
     return False, None
 
